@@ -635,3 +635,122 @@ Proof.
   destruct (send_all_reqs (cs (cl x)) (p_parts p) (p_cntr p) recs []) as [oreqs c']. cbn [fst snd] in Hs, Hc.
   subst oreqs. rewrite Hc by discriminate. reflexivity.
 Qed.
+
+(* ================================================================================================== *)
+(* Examples: the state and batch of C20Facts.v (two brokers; the batch interleaves t1 and t2, names    *)
+(* t1/0 and t2/0 twice, and its records go to both brokers)                                            *)
+(* ================================================================================================== *)
+Definition c05_reqs : list (bytes * produce_tps) :=
+  [ (tag "h0:9092", [ (tag "t1", [ (0, [(None, Some (tag "a")); (None, Some (tag "c"))]);
+                                   (3, [(None, Some (tag "f"))]) ]);
+                      (tag "t2", [ (1, [(None, Some (tag "e"))]) ]) ]);
+    (tag "h1:9092", [ (tag "t2", [ (0, [(Some (tag "k"), Some (tag "b")); (None, Some (tag "g"))]) ]);
+                      (tag "t1", [ (2, [(None, None)]) ]) ]) ].
+
+Example c05_reqs_ex : produce_reqs c20_state c20_batch [] = Some c05_reqs.
+Proof. vm_compute. reflexivity. Qed.
+
+Example C05_exactly_once_ex :
+  msgs_for c05_reqs (tag "h0:9092") (tag "t1") 0 = [(None, Some (tag "a")); (None, Some (tag "c"))]
+  /\ map pmsg_of (filter (dest c20_state (tag "h0:9092") (tag "t1") 0) c20_batch)
+     = [(None, Some (tag "a")); (None, Some (tag "c"))]
+  /\ msgs_for c05_reqs (tag "h1:9092") (tag "t2") 0 = [(Some (tag "k"), Some (tag "b")); (None, Some (tag "g"))]
+  /\ msgs_for c05_reqs (tag "h1:9092") (tag "t1") 0 = []
+  /\ map pmsg_of (filter (dest c20_state (tag "h1:9092") (tag "t1") 0) c20_batch) = []
+  /\ msgs_for c05_reqs (tag "h0:9092") (tag "t1") 1 = [].
+Proof. vm_compute. repeat split; reflexivity. Qed.
+
+Example C05_single_set_ex :
+  map fst c05_reqs = [tag "h0:9092"; tag "h1:9092"]
+  /\ map (fun htps => map fst (snd htps)) c05_reqs = [[tag "t1"; tag "t2"]; [tag "t2"; tag "t1"]]
+  /\ map (fun htps => map (fun tps => map fst (snd tps)) (snd htps)) c05_reqs = [[[0; 3]; [1]]; [[0]; [2]]].
+Proof. vm_compute. repeat split; reflexivity. Qed.
+
+Example C05_leader_only_ex :
+  In (tag "h1:9092", [ (tag "t2", [ (0, [(Some (tag "k"), Some (tag "b")); (None, Some (tag "g"))]) ]);
+                       (tag "t1", [ (2, [(None, None)]) ]) ]) c05_reqs
+  /\ find_broker c20_state (tag "t2") 0 = Some (tag "h1:9092")
+  /\ find_broker c20_state (tag "t1") 2 = Some (tag "h1:9092").
+Proof. split; [right; left; reflexivity|]. vm_compute. split; reflexivity. Qed.
+
+Example C05_reorder_harmless_ex :
+  reorder [tag "h1:9092"; tag "h7:1"] c05_reqs = rev c05_reqs
+  /\ reorder [tag "h7:1"] c05_reqs = c05_reqs.
+Proof. vm_compute. split; reflexivity. Qed.
+
+Example C05_all_records_once_ex :
+  length (all_msgs c05_reqs) = 7%nat /\ length c20_batch = 7%nat.
+Proof. vm_compute. split; reflexivity. Qed.
+
+(* acks = 0: both requests are written (second host first, as hostq says; a short write and an
+   interrupted write on the way), nothing is read - the OData item stays in the script *)
+Definition c05_st0 : st :=
+  {| script := [OConn true; OWrote 1000; OConn true; OWrote 10; OWriteIntr; OWrote 1000; OData (tag "never read")];
+     trace := []; anyq := []; hostq := [[tag "h1:9092"]];
+     fetchq := []; entryq := []; cl := c20_client 1; env := c20_env |}.
+
+Example C05_noack_no_read_ex :
+  fst (internal_produce_messages 0 1000 c20_batch c05_st0) = Ok []
+  /\ map (fun e => (ev_host e, is_read e)) (trace (snd (internal_produce_messages 0 1000 c20_batch c05_st0)))
+     = [ (tag "h0:9092", false); (tag "h0:9092", false); (tag "h0:9092", false); (tag "h0:9092", false);
+         (tag "h1:9092", false); (tag "h1:9092", false) ]
+  /\ script (snd (internal_produce_messages 0 1000 c20_batch c05_st0)) = [OData (tag "never read")].
+Proof. vm_compute. repeat split; reflexivity. Qed.
+
+(* acks = 1: one response per request, confirmations in the order the requests went out *)
+Definition c05_resp (corr : Z) (t : bytes) (p off : Z) : bytes :=
+  enc_i32 corr ++ enc_i32 1 ++ enc_i16 (ulen t) ++ t ++ enc_i32 1 ++ enc_i32 p ++ enc_i16 0 ++ enc_i64 off.
+
+Definition c05_st1 : st :=
+  {| script := [ OConn true; OWrote 1000; OData (enc_i32 (ulen (c05_resp 8 (tag "t2") 0 40)));
+                 OData (c05_resp 8 (tag "t2") 0 40);
+                 OConn true; OWrote 1000; OData (enc_i32 (ulen (c05_resp 8 (tag "t1") 3 77)));
+                 OData (c05_resp 8 (tag "t1") 3 77) ];
+     trace := []; anyq := []; hostq := [[tag "h1:9092"]];
+     fetchq := []; entryq := []; cl := c20_client 1; env := c20_env |}.
+
+Example C05_confirms_ex :
+  fst (internal_produce_messages 1 1000 c20_batch c05_st1)
+  = Ok [ (tag "t2", [(0, inl 40)]); (tag "t1", [(3, inl 77)]) ]
+  /\ map ev_host (trace (snd (internal_produce_messages 1 1000 c20_batch c05_st1)))
+     = [ tag "h0:9092"; tag "h0:9092"; tag "h0:9092"; tag "h0:9092";
+         tag "h1:9092"; tag "h1:9092"; tag "h1:9092"; tag "h1:9092" ].
+Proof. vm_compute. split; reflexivity. Qed.
+
+(* the producer: keyless records rotate over the available partitions 0, 2, 3 of t1; a keyed one is hashed *)
+Definition c05_rec t p k v := {| r_topic := t; r_partition := p; r_key := k; r_value := v |}.
+Definition c05_recs : list record :=
+  [ c05_rec (tag "t1") (-1) [] (tag "a"); c05_rec (tag "t2") 0 (tag "k") (tag "b");
+    c05_rec (tag "t1") (-1) [] (tag "c"); c05_rec (tag "t1") (-1) [] (tag "d");
+    c05_rec (tag "t1") (-1) (tag "key") (tag "e"); c05_rec (tag "t1") (-1) [] [] ].
+
+Example C05_producer_same_ex :
+  map (fun m => (pq_topic m, pq_partition m)) (fst (partitioned (producer_state c20_state) 0 c05_recs))
+  = [ (tag "t1", 0); (tag "t2", 0); (tag "t1", 2); (tag "t1", 3); (tag "t1", 0); (tag "t1", 0) ]
+  /\ snd (partitioned (producer_state c20_state) 0 c05_recs) = 4
+  /\ send_all_reqs c20_state (producer_state c20_state) 0 c05_recs []
+     = (Some [ (tag "h0:9092", [ (tag "t1", [ (0, [(None, Some (tag "a")); (Some (tag "key"), Some (tag "e")); (None, None)]);
+                                              (3, [(None, Some (tag "d"))]) ]) ]);
+               (tag "h1:9092", [ (tag "t2", [ (0, [(Some (tag "k"), Some (tag "b"))]) ]);
+                                 (tag "t1", [ (2, [(None, Some (tag "c"))]) ]) ]) ], 4)
+  /\ fst (send_all_reqs c20_state (producer_state c20_state) 0 (c05_recs ++ [c05_rec (tag "t1") 1 [] (tag "x")]) []) = None.
+Proof. vm_compute. repeat split; reflexivity. Qed.
+
+Print Assumptions C05_exactly_once.
+Print Assumptions C05_no_other_broker.
+Print Assumptions C05_leader_gets_all.
+Print Assumptions C05_single_set.
+Print Assumptions C05_entry_is_msgs_for.
+Print Assumptions C05_leader_only.
+Print Assumptions C05_every_record_sent.
+Print Assumptions C05_all_records_once.
+Print Assumptions C05_reorder_harmless.
+Print Assumptions C05_reorder_same_sets.
+Print Assumptions C05_only_request_hosts.
+Print Assumptions C05_noack_no_read.
+Print Assumptions C05_confirms.
+Print Assumptions C05_call_unfold.
+Print Assumptions C05_producer_same.
+Print Assumptions C05_producer_counter.
+Print Assumptions C05_producer_local_fail.
+Print Assumptions C05_producer_call_unfold.
